@@ -158,12 +158,17 @@ pub fn stream(data: &[u8]) -> Progress {
     };
     let body = &data[1..];
     let mut s = SummaryStream::new();
-    for c in body.chunks(chunk.max(1)) {
-        match s.write(c) {
-            Ok(_) => {}
-            Err(e) => {
-                let _ = e.to_string();
-                break;
+    // bit 3: a zero-length write after every chunk; bit 4: chunks end at line ends instead
+    let empty_writes = data[0] & 8 != 0;
+    let pieces: Vec<&[u8]> = if data[0] & 16 != 0 { body.split_inclusive(|b| *b == b'\n').collect() } else { body.chunks(chunk.max(1)).collect() };
+    'writes: for c in pieces {
+        for part in [Some(c), if empty_writes { Some(&c[..0]) } else { None }].into_iter().flatten() {
+            match s.write(part) {
+                Ok(_) => {}
+                Err(e) => {
+                    let _ = e.to_string();
+                    break 'writes;
+                }
             }
         }
     }
